@@ -120,6 +120,20 @@ def check_case(case, acc):
     acc.exec()
     if len(a.tp_list) != 1 or abs(a.tp_list[0] - want_w) > TW:
         bad("ap-tp-list:" + fk, "Ap(TPMetricsAph).tp_list=%s, expected [%.9f]" % (a.tp_list, want_w))
+    # orientations given by quaternion elements that are not of unit length (as read from a file), on objects nothing has touched yet:
+    # the yaw error asked of the objects directly is that of the rotations they denote
+    if r == 0.0 and p == 0.0 and fr == "base_link" and not case["neg_g"]:
+        from pyquaternion import Quaternion as _Q
+        for qs in (math.sqrt(2.0), 0.41):
+            ef = G.mk3d(dict(x=5.0, y=1.0, yaw=ye, label="CAR", uuid="e", score=0.9), fr, ego)
+            gf = G.mk3d(dict(x=5.2, y=1.1, yaw=yg, label="CAR", uuid="g"), fr, ego)
+            sg_ = -1.0 if case["neg_e"] else 1.0
+            ef.state.orientation = _Q(sg_ * qs * math.cos(ye / 2), 0.0, 0.0, sg_ * qs * math.sin(ye / 2))
+            gf.state.orientation = _Q(qs * math.cos(yg / 2), 0.0, 0.0, qs * math.sin(yg / 2))
+            acc.exec()
+            he = ef.get_heading_error(gf)
+            if he is None or abs(abs(he[2]) - d) > 1e-9:
+                bad("yaw-error:non-unit-quaternion", "objects whose orientations are given by quaternion elements of norm %.3f report yaw error %s, expected magnitude %.9f" % (qs, he, d))
     # the pair's weight is a function of the two orientations: the same map-frame pair handed over with the transforms of other
     # (level) ego poses keeps its weight exactly - also when the boxes are slightly tilted
     if fr == "map" and not case["neg_e"] and not case["neg_g"]:
@@ -130,7 +144,7 @@ def check_case(case, acc):
                 bad("aph-weight:depends-on-ego-pose", "the same map-frame pair weighs %.9f with the transforms of ego pose %s and %.9f with those of %s" % (wo, ego2, w, ego))
     # the weight and the yaw error are functions of the two orientations: boxes wider than long and polygon-shaped objects (which
     # carry an orientation like any other object) get the same values as the 2 x 4 boxes
-    if r == 0.0 and p == 0.0 and not case["neg_g"] and not case["neg_e"]:
+    if r == 0.0 and p == 0.0 and not case["neg_g"] and not case["neg_e"] and (fr == "base_link" or abs(ego[2]) > 1.0):
         from shapely.geometry import Polygon as _Poly
         from perception_eval.common.shape import Shape as _Shape, ShapeType as _ST
         variants = []
